@@ -929,7 +929,7 @@ func runC16Trial(run *ev.Run, sp *c16Spec) {
 
 func runC16(tier string, args []string) {
 	run := ev.New("C16", tier, "exploration")
-	run.Rule("Seeded meshes of 2-5 real nodes (chain/ring/tree/random, weighted), one sender node with two sending sockets and 1-20 unrelated sockets, 1-2 sockets on every other node, ALL subscribed to unreachable notices (plus a raw per-node log of every notice a node was handed and the link taps). Per trial: 8 datagrams to never-bound services (names 1-8 bytes of valid UTF-8 incl. control characters, quotes, multi-byte runes, embedded NUL) on every node incl. the sender itself; 2 services closed at a seeded moment relative to a burst of sends + sends after Close returned (order by a global event counter taken before WriteTo / after Close returned; only sends started strictly after are demanded to be noticed); 2 datagrams to a service covered by a firewall drop rule; 1-2 DialContext to an unbound/closed remote service; non-UTF-8 names as a separately labelled, unjudged class. Oracle: the sending socket (and only it) gets 'service unknown' echoing FromNode/FromService/ToNode/ToService; bound = notice still missing after the wait saw no notice traffic any more and two full-budget pings to the target returned (same path, FIFO per session); local sends may instead fail synchronously with 'service unknown'; a dial must return context.Canceled AND the tap must show the notice arriving at the dialer's node before DialContext returned; drop rule => no notice at any socket, node or link (thorough: 10 dials into a dropped service must end in the QUIC handshake timeout, not in a cancellation). distinct_nontrivial = distinct (operation/target class, timing class never|after-only|before+after|overlap, unrelated-socket bucket, hops) judged where the datagram provably reached the target node")
+	run.Rule("Seeded meshes of 2-5 real nodes (chain/ring/tree/random, weighted), one sender node with two sending sockets and 1-20 unrelated sockets, 1-2 sockets on every other node, ALL subscribed to unreachable notices (plus a raw per-node log of every notice a node was handed and the link taps). Per trial: 8 datagrams to never-bound services (names 1-8 bytes of valid UTF-8 incl. control characters, quotes, multi-byte runes, embedded NUL) on every node incl. the sender itself; 2 services closed at a seeded moment relative to a burst of sends + sends after Close returned (order by a global event counter taken before WriteTo / after Close returned; only sends started strictly after are demanded to be noticed); 2 datagrams to a service covered by a firewall drop rule; 1-2 DialContext to an unbound/closed remote service; non-UTF-8 names as a separately labelled, unjudged class. Oracle: the sending socket (and only it) gets 'service unknown' echoing FromNode/FromService/ToNode/ToService; bound = notice still missing after the wait saw no notice traffic any more and two full-budget pings to the target returned (same path, FIFO per session); local sends may instead fail synchronously with 'service unknown'; a dial must return context.Canceled AND the tap must show the notice arriving at the dialer's node before DialContext returned; drop rule => no notice at any socket, node or link (thorough: 10 dials into a dropped service must end in the QUIC handshake timeout, not in a cancellation). extras: bursts of back-to-back datagrams from one socket to an unbound service (notices conserved), dials to unbound services of the dialling node itself, and sockets closed while 1-4 datagrams for them are still undelivered because nobody read them (datagrams sent afterwards must be noticed). distinct_nontrivial = distinct (operation/target class, timing class never|after-only|before+after|overlap, unrelated-socket bucket, hops) judged where the datagram provably reached the target node")
 	run.Assume("non-UTF-8 service names are a separately keyed class (notice:nonutf8-*): the notice travels as JSON and cannot carry such names byte-exactly (recorded known finding)")
 	run.Assume("one sender stream per closing service (two concurrent deliverers at Close is C17's crash:recvChan-double-close)")
 	rng := rand.New(rand.NewSource(run.Seed*104729 + 16))
